@@ -1678,6 +1678,7 @@ fn nonhex_case(ctx: &mut Ctx, r: &mut Rng, s: &mut Sweep) {
 pub fn run(ctx: &mut Ctx) {
     // the readers allocate and free 64 KiB buffers all the time: keep glibc from trimming and re-growing the heap
     // (thousands of brk calls + page faults dominated the run time otherwise). Harness-only tuning.
+    #[cfg(not(miri))]
     unsafe {
         libc::mallopt(libc::M_TRIM_THRESHOLD, 1 << 30);
         libc::mallopt(libc::M_TOP_PAD, 64 << 20);
